@@ -172,7 +172,11 @@ func c04parse(text string) (*pipeline.Pipeline, string) {
 
 // c04once parses text, computes the expectation from the JSON before, runs
 // Interpolate (optionally under a seam chooser) and compares.
-func c04once(text string, choose verifseam.Chooser) c04outcome {
+func c04once(text string, choose verifseam.Chooser) c04outcome { return c04onceOrd(text, choose, true) }
+
+// c04onceOrd: ordered=false compares mappings as sets of entries (used when renamed keys sort differently: Go-map backed
+// levels are marshalled sorted, so their order is not the document's).
+func c04onceOrd(text string, choose verifseam.Chooser, ordered bool) c04outcome {
 	p, bad := c04parse(text)
 	if bad != "" {
 		return c04outcome{"harness", "instrumented document does not parse: " + bad + "\n" + text}
@@ -211,6 +215,9 @@ func c04once(text string, choose verifseam.Chooser) c04outcome {
 	at, err := docgen.FromJSON(after)
 	if err != nil {
 		return c04outcome{"harness", "read after: " + err.Error()}
+	}
+	if !ordered {
+		docgen.U(want, "**")
 	}
 	if d := docgen.Match(want, at); d != "" {
 		kind := "not-single-pass"
@@ -293,27 +300,42 @@ func c04doc(w *report.W, label string, in *docgen.N, presentation string, seamBo
 		w.Obs(fmt.Sprintf("probe sig=%v result=%s", strings.Contains(st.where[id], ".signature"), o.kind))
 		rec(o, c04case{Label: label, Text: ptext, Probe: st.where[id]}, len(text)/40+1)
 	}
-	// seam: all explored iteration orders / revisit answers
+	// seam: all explored iteration orders / revisit answers. Maps of <=3 entries are fully open; if that
+	// multiplies to more than the cap for this document, the run is repeated with <=2, then with every loop
+	// deviation-bounded (the level that completed is counted).
 	if seamBound >= 0 {
-		ex := &explore.Explorer{Bound: seamBound, MaxExec: 60000}
-		ex.Run = func(x *explore.X) bool {
-			o := c04once(text, x.Choose)
-			if o.kind != "" {
-				rec(o, c04case{Label: label, Text: text, Choices: append([]int{}, x.Choices...)}, 200+len(x.Choices)+len(text)/40)
-				return false
+		for _, open := range []int{3, 2, 0} {
+			verifseam.OpenMaxLen = open
+			ex := &explore.Explorer{Bound: seamBound, MaxExec: 60000}
+			failed := false
+			ex.Run = func(x *explore.X) bool {
+				o := c04once(text, x.Choose)
+				if o.kind != "" {
+					rec(o, c04case{Label: label, Text: text, Choices: append([]int{}, x.Choices...)}, 200+len(x.Choices)+len(text)/40)
+					failed = true
+					return false
+				}
+				return true
 			}
-			return true
+			ex.Explore()
+			w.P.Evaluations += ex.Stats.Executions
+			w.P.Transitions += ex.Stats.Executions
+			w.Count("seam_schedules", ex.Stats.Executions)
+			if failed {
+				break
+			}
+			if !ex.Stats.Capped {
+				w.Count(fmt.Sprintf("docs_with_maps<=%d_fully_open", open), 1)
+				if ex.Stats.Executions > 1 {
+					w.Count("docs_with_schedule_choices", 1)
+				}
+				break
+			}
+			if open == 0 {
+				w.Inexhaustive("seam schedule cap hit for " + label)
+			}
 		}
-		ex.Explore()
-		w.P.Evaluations += ex.Stats.Executions
-		w.P.Transitions += ex.Stats.Executions
-		w.Count("seam_schedules", ex.Stats.Executions)
-		if ex.Stats.Executions > 1 {
-			w.Count("docs_with_schedule_choices", 1)
-		}
-		if ex.Stats.Capped {
-			w.Inexhaustive("seam schedule cap hit for " + label)
-		}
+		verifseam.OpenMaxLen = 3
 	}
 }
 
@@ -382,6 +404,8 @@ func c04run(w *report.W) {
 	}
 	// alias-shared subtrees: instrument the YAML text itself (anchors kept)
 	c04aliasRun(w, seamBound)
+	// keys whose expansion equals another key's original text: {"$$K": .., "$K": ..} at every map-backed position
+	c04chainRun(w, seamBound)
 	// maps of 9+ entries (beyond Go's small-map bucket)
 	big := docgen.Map()
 	for i := 0; i < 11; i++ {
@@ -389,6 +413,70 @@ func c04run(w *report.W) {
 	}
 	bigDoc := docgen.Map("steps", docgen.Seq(docgen.Map("command", docgen.Str("c"), "env", big.Clone(), "bigunknown", big.Clone(), "plugins", docgen.Seq(docgen.Map("./p", big.Clone())))), "top", big.Clone())
 	c04doc(w, "base big-maps", bigDoc, "json", 1)
+}
+
+// c04chainRun: maps in which one key's expansion is another key's original text ("$$K" -> "$K", "$K" -> value).
+// No two keys expand to the same name, so the result is well defined; an implementation that rewrites the map
+// entry by entry can lose an entry depending on the iteration order.
+func c04chainRun(w *report.W, seamBound int) {
+	chain := `{"$$X": first, "$X": second, plain: third, "\\$X_": fourth}`
+	text := `
+"$$X": top1
+"$X": top2
+steps:
+  - command: c
+    env: ` + chain + `
+    agents: ` + chain + `
+    plugins: [{./p: ` + chain + `}]
+    matrix: {setup: {"$$X": [a], "$X": [b]}, adjustments: [{with: {"$$X": a, "$X": b}, soft_fail: ` + chain + `}], extra: ` + chain + `}
+    cache: {paths: [p], opts: ` + chain + `}
+  - wait: ~
+    meta: ` + chain + `
+  - trigger: t
+    build: {env: ` + chain + `}
+  - block: b
+    fields: [` + chain + `]
+  - group: g
+    steps: []
+    notify: ` + chain + `
+  - frob: ` + chain + `
+`
+	if !w.Take("c04chain|" + text) {
+		return
+	}
+	w.P.Evaluations++
+	w.P.Nontrivial++
+	o := c04onceOrd(text, nil, false)
+	w.Obs("chain base result=" + o.kind)
+	if o.kind == "harness" {
+		w.HarnessError("%s", o.detail)
+		return
+	}
+	if o.kind != "" {
+		w.Violate(report.Violation{Kind: o.kind, Case: "chained renames: " + strings.TrimSpace(text), Detail: o.detail, Size: 30, Replay: c04case{Label: "chain", Text: text}})
+		return
+	}
+	verifseam.OpenMaxLen = 0
+	defer func() { verifseam.OpenMaxLen = 3 }()
+	b := seamBound
+	if b < 2 {
+		b = 2
+	}
+	ex := &explore.Explorer{Bound: b, MaxExec: 400000}
+	ex.Run = func(x *explore.X) bool {
+		o := c04onceOrd(text, x.Choose, false)
+		if o.kind != "" {
+			w.Violate(report.Violation{Kind: o.kind, Case: "chained renames: " + strings.TrimSpace(text) + fmt.Sprintf(" | seam choices %v", x.Choices), Detail: o.detail, Size: 230, Replay: c04case{Label: "chain", Text: text, Choices: append([]int{}, x.Choices...)}})
+			return false
+		}
+		return true
+	}
+	ex.Explore()
+	w.P.Evaluations += ex.Stats.Executions
+	w.Count("seam_schedules", ex.Stats.Executions)
+	if ex.Stats.Capped {
+		w.Inexhaustive("seam schedule cap hit for chained-renames document")
+	}
 }
 
 // c04aliasRun handles the document whose subtrees are shared through YAML
@@ -462,12 +550,12 @@ func init() {
 			verifseam.OpenMaxLen = 3
 			var o c04outcome
 			if c.Choices != nil {
-				x := explore.Replay(c.Choices, func(x *explore.X) { o = c04once(c.Text, x.Choose) })
+				x := explore.Replay(c.Choices, func(x *explore.X) { o = c04onceOrd(c.Text, x.Choose, c.Label != "chain") })
 				if x.Diverged != "" {
 					return "replay diverged: " + x.Diverged, false
 				}
 			} else {
-				o = c04once(c.Text, nil)
+				o = c04onceOrd(c.Text, nil, c.Label != "chain")
 			}
 			return o.kind + ": " + o.detail, o.kind != "" && o.kind != "harness"
 		},
